@@ -2,9 +2,11 @@ use crate::report::Args;
 
 pub mod c03;
 pub mod c09;
+pub mod c12;
 pub mod c13;
 pub mod c16;
 pub mod c17;
+pub mod c18;
 pub mod mux;
 
 pub fn run(args: &Args) -> i32 {
@@ -15,6 +17,8 @@ pub fn run(args: &Args) -> i32 {
         "C13" => c13::run(args),
         "C03" => c03::run(args),
         "C09" => c09::run(args),
+        "C12" => c12::run(args),
+        "C18" => c18::run(args),
         other => {
             eprintln!("unknown property {}", other);
             2
